@@ -290,6 +290,8 @@ def setup_window(ctx, cfg, receiver, payloads, reflect=True):
     L = R.connect(cfg)
     if L.client.state != "done" or L.server.state != "done":
         return None
+    if cfg.get("hrr"):
+        ctx.count("L2:hello-retry-request:%s" % ("taken" if R.went_through_hrr(L) else "NOT-taken"))
     R.drain_post_handshake(L)
     sender = "client" if receiver == "server" else "server"
     cap = Capture(L)
@@ -825,6 +827,7 @@ def live_connection_case(ctx, cfg, receiver, cls, mode, payloads=None):
         return mid_handshake_alert(ctx, cfg)
     rng = ctx.rng
     label = "%d.%d/%s/etm=%s" % (cfg["ver"][0], cfg["ver"][1], cfg["cipher"], cfg["etm"])
+    label += "".join("/" + k for k in ("hrr", "client_cert", "req_cert") if cfg.get(k))
     payloads = payloads or [b"first record", b"second", b"third rec", b"4"]
     sender = "client" if receiver == "server" else "server"
     d = "c2s" if sender == "client" else "s2c"
@@ -1031,6 +1034,11 @@ def live_streams(ctx):
                             n += 1
                             live_connection_case(ctx, dict(cfg, client_cert=cc, req_cert=rq), who, cls,
                                                  ("read", "getmsg")[(n + i) % 2])
+                    # ... and after a handshake that went through a HelloRetryRequest (the client's
+                    # compatibility CCS is sent early there)
+                    for cls in ("plaintext-ccs", "plaintext-ccs-after-data"):
+                        n += 1
+                        live_connection_case(ctx, dict(cfg, hrr=True), who, cls, ("read", "getmsg")[(n + i) % 2])
         except Exception as e:  # noqa: B902 - the machinery must not die on one configuration
             import traceback
             ctx.violation("c02:exception", "exception in the receive path or the harness: %s: %s" % (type(e).__name__, e),
